@@ -250,6 +250,34 @@ where
     Ok(res)
 }
 
+/// Remove all literals from `set` which are above level `until`
+///
+/// `set` is a conjunction of literals. Popping a positive literal resorts to
+/// taking its "true" cofactor, popping a negative literal (whose "true"
+/// cofactor is ⊥) to taking its "false" cofactor.
+#[inline]
+fn literal_set_pop<'a, M>(
+    manager: &'a M,
+    set: Borrowed<'a, M::Edge>,
+    until: LevelNo,
+) -> Borrowed<'a, M::Edge>
+where
+    M: Manager<EdgeTag = EdgeTag, Terminal = BCDDTerminal>,
+    M::InnerNode: HasLevel,
+{
+    match manager.get_node(&set) {
+        Node::Inner(n) if n.level() < until => {
+            let (t, e) = collect_cofactors(set.tag(), n);
+            if is_false(manager, &e) {
+                literal_set_pop(manager, t, until)
+            } else {
+                literal_set_pop(manager, e, until)
+            }
+        }
+        _ => set,
+    }
+}
+
 /// Prepare a substitution
 ///
 /// The result is a vector that maps levels to replacement functions. The levels
@@ -1318,14 +1346,14 @@ where
             };
             let level = node.level();
 
-            let literal_set = crate::set_pop(manager, literal_set, level);
+            let literal_set = literal_set_pop(manager, literal_set, level);
             let (literal_set, c) = match manager.get_node(&literal_set) {
                 Node::Inner(node) if node.level() == level => {
                     let (t, e) = collect_cofactors(literal_set.tag(), node);
                     if is_false(manager, &e) {
-                        (e, true)
+                        (t, true)
                     } else {
-                        (t, false)
+                        (e, false)
                     }
                 }
                 _ => (literal_set, false),
